@@ -366,7 +366,8 @@ class Engine(object):
         c = smt.conc_bool(cond)
         if c is not None:
             return c
-        r = smt.check_valid(st.pc, cond, timeout_ms=timeout_ms, want_model=False, use_cvc5=False)
+        with smt.side_query():
+            r = smt.check_valid(st.pc, cond, timeout_ms=timeout_ms, want_model=False, use_cvc5=False)
         return r.status == "proved"
 
     def uf(self, name, args, ret):
